@@ -16,26 +16,52 @@ def parseEv (t : String) : Option Ev :=
   | 'A' :: r => some (.arrive (decBytes (String.ofList r)))
   | _ => none
 
-/-- Event tokens of a run under a wake-driven executor: `W` = poll the retained receive only if its waker has fired
-    since it was last polled (a receive that is not in progress is started and polled at once). The waker contract as the
+/-- tokens of an `rx` event list -/
+inductive RTok
+  | close
+  | arrive (b : List Byte)
+  | p      -- poll a fresh receive once and drop it
+  | q      -- poll the retained receive (creating it if there is none)
+  | w      -- poll the retained receive only if its waker has fired since it was last polled
+  | other
+
+def parseRTok (t : String) : RTok :=
+  match t.toList with
+  | ['C'] => .close
+  | ['P'] => .p
+  | ['Q'] => .q
+  | ['W'] => .w
+  | 'A' :: r => .arrive (decBytes (String.ofList r))
+  | _ => .other
+
+/-- Events of a run under a wake-driven executor: `w` = poll the retained receive only if its waker has fired since it
+    was last polled (a receive that is not in progress is started and polled at once). The waker contract as the
     scripted transport implements it: a poll that ends pending has left the task's waker with the transport (`armed`);
-    the next arrival or close fires it (`flag`). Returns the events that are actually executed (`W` = a poll or nothing). -/
-def resolveW (C : Consts) (sizes : Nat → Nat) : List String → St → Net → (flag armed retained : Bool) → List Ev
+    the next arrival or close fires it (`flag`). Returns the events that are actually executed (`w` = a poll or nothing). -/
+def resolveW (C : Consts) (sizes : Nat → Nat) : List RTok → St → Net → (flag armed retained : Bool) → List Ev
   | [], _, _, _, _, _ => []
   | t :: ts, s, e, flag, armed, retained =>
     let pollNow (keep : Bool) : List Ev :=
       let r := Rx.poll C sizes s e
       let pend := r.1 == Out.pending
       .poll :: resolveW C sizes ts r.2.1 r.2.2 false (armed || pend) (keep && pend)
-    match t.toList with
-    | ['C'] => .close :: resolveW C sizes ts s { e with closed := true } (flag || armed) false retained
-    | 'A' :: r =>
-      let b := decBytes (String.ofList r)
-      .arrive b :: resolveW C sizes ts s { e with avail := e.avail ++ b } (flag || armed) false retained
-    | ['P'] => pollNow false
-    | ['Q'] => pollNow true
-    | ['W'] => if !retained || flag then pollNow true else resolveW C sizes ts s e flag armed retained
-    | _ => resolveW C sizes ts s e flag armed retained
+    match t with
+    | .close => .close :: resolveW C sizes ts s { e with closed := true } (flag || armed) false retained
+    | .arrive b => .arrive b :: resolveW C sizes ts s { e with avail := e.avail ++ b } (flag || armed) false retained
+    | .p => pollNow false
+    | .q => pollNow true
+    | .w => if !retained || flag then pollNow true else resolveW C sizes ts s e flag armed retained
+    | .other => resolveW C sizes ts s e flag armed retained
+
+/-- the same tokens under an executor that polls whenever the list says so (`w` = `q`) -/
+def eagerW : List RTok → List Ev
+  | [] => []
+  | .close :: ts => .close :: eagerW ts
+  | .arrive b :: ts => .arrive b :: eagerW ts
+  | .p :: ts => .poll :: eagerW ts
+  | .q :: ts => .poll :: eagerW ts
+  | .w :: ts => .poll :: eagerW ts
+  | .other :: ts => eagerW ts
 
 def tokOfOut (tbl : List (List Byte × String)) : Out → String
   | .pending => "pend"
@@ -87,7 +113,7 @@ def handle (bounds : Bool) (ts : List String) : String :=
     | _ => none
   let frames := tbl.map (·.1)
   let sizes := ss.map String.toNat!
-  match (if es.contains "W" then some (resolveW consts (sizesFn sizes) es (init consts) net0 true false false) else es.mapM parseEv) with
+  match (if es.contains "W" then some (resolveW consts (sizesFn sizes) (es.map parseRTok) (init consts) net0 true false false) else es.mapM parseEv) with
   | none => "bad-line"
   | some evs =>
     let outs := run consts (sizesFn sizes) evs (init consts) net0
